@@ -520,6 +520,31 @@ def interconnect (a : Args K) : Except Err (Maps K) :=
                 (width (cin.map (· + di.length)) inl'.length)
                 (width (cout.map (· + dout.length)) outl'.length)
 
+/-! ### `add_unused`: which signals are appended and what they are called -/
+
+/-- the labels `add_unused=True` appends to `inputs` / `outputs`, one per appended list entry
+`(isys, isig)`: `newsys.syslist[isys].input_labels[isig]` (resp. `output_labels`). -/
+def unusedLabels (sigs : List SysSig) (d : Dict) (l : List (Nat × Nat)) : List String :=
+  l.filterMap fun p => (sigs[p.1]?).bind fun S => ((S.labels d)[p.2]?).map (·.raw)
+
+/-- `(dropped_inputs, dropped_outputs)` of the first construction — the `(isys, isig)` pairs
+that `add_unused=True` appends to `inplist` / `outlist`, in the order of the model (increasing
+flat index; the code iterates a Python set, so only the *pairing* of the appended list entry
+with the appended label is observable, not the order). -/
+def addedSignals (a : Args K) : Except Err (List (Nat × Nat) × List (Nat × Nat)) :=
+  if !a.addUnused then .ok ([], [])
+  else
+    match interconnect { a with addUnused := false } with
+    | .error e => .error e
+    | .ok m => .ok (unusedInputs a.sigs m, unusedOutputs a.sigs m)
+
+/-- the names of the appended external inputs / outputs, aligned with the appended columns of
+`input_map` / rows of `output_map` of `interconnect a`. -/
+def addedLabels (a : Args K) : Except Err (List String × List String) :=
+  match addedSignals a with
+  | .error e => .error e
+  | .ok (di, dout) => .ok (unusedLabels a.sigs .input di, unusedLabels a.sigs .output dout)
+
 /-! ### `_compute_static_io` -/
 
 /-- the propagation loop: `step u` recomputes the subsystem inputs from the outputs the
